@@ -33,6 +33,14 @@ structure Flags where
   packed : Bool    -- `_CFFI_F_PACKED` → `SF_PACKED`, pack = 1
   deriving Repr, DecidableEq
 
+
+instance exceptDecEq {ε α : Type} [DecidableEq ε] [DecidableEq α] : DecidableEq (Except ε α) := fun a b =>
+  match a, b with
+  | .ok x, .ok y => if h : x = y then isTrue (by rw [h]) else isFalse (fun h' => by cases h'; exact h rfl)
+  | .error x, .error y => if h : x = y then isTrue (by rw [h]) else isFalse (fun h' => by cases h'; exact h rfl)
+  | .ok _, .error _ => isFalse (fun h => by cases h)
+  | .error _, .ok _ => isFalse (fun h => by cases h)
+
 inductive Err where
   | ffiError     -- `detect_custom_layout` under `SF_STD_FIELD_POS`; wrong field size
   | typeError    -- field of unknown size; total size smaller than the fields
